@@ -9,6 +9,15 @@ OBLIGATIONS = [
     "Pkgcore.C11.collapse_preserves_render",
     "Pkgcore.C11.history_independent_of_grouping",
     "Pkgcore.C11.history_render_is_flat",
+    "Pkgcore.C11.rewrite_sectionwise",
+    "Pkgcore.C11.splitter_eq_spec",
+    "Pkgcore.C11.splitter_accepts_iff",
+    "Pkgcore.C11.splitter_output_sublist",
+    "Pkgcore.C11.splitter_preserves_meaning_partial",
+    "Pkgcore.C11.splitter_preserves_meaning_counterexample",
+    "Pkgcore.C11.line_chunk_is_ltr_partial",
+    "Pkgcore.C11.line_chunk_counterexample",
+    "Pkgcore.C11.package_use_line_partial",
 ]
 TRUSTED = [
     "a restriction used as chunk key is reduced to an identity, its `simple` flag (key == AlwaysTrue or key.is_simple) and, for atoms, its "
@@ -16,6 +25,12 @@ TRUSTED = [
     "Python sets are lists up to membership; tuple(set(...)) orderings inside add_bare_global are not compared, only rendered sets are",
     "freeze()/clone() only change container types / copy: identity on the model (the harness interleaves them with the other operations)",
     "interning (_interner, optimize(cache=...)) and payload_form only change the representation of chunks",
+    "package.use lines are modelled behind str.split(): the tokens after the query; str.lower is Char.toLower (ASCII tokens only are "
+    "generated); is_valid_use_flag is a parameter of the model, the driver's instance of it is compared with the real predicate on "
+    "every checked token; a bare '-' never reaches split_negations (it is not a valid flag)",
+    "the domain glue above the chunks (load_property file reading, parse_match of the query, IUSE defaults, USE_EXPAND globs against "
+    "IUSE, use.mask/use.force layering) has no Lean model: it is exercised by driving a real domain object and compared with the "
+    "flat left-to-right reading of the generated configuration",
 ]
 ASSUMPTIONS = [
     "a `simple` key (AlwaysTrue, version-less atom) matches every package whose key selects the list it is stored in; checked per case",
@@ -23,6 +38,10 @@ ASSUMPTIONS = [
 RULE = ("random chunk sequences and random histories of ChunkedDataDict operations (update_from_stream of global / category / atom chunks, "
         "add_bare_global, merge of a recursively built dict, optimize, freeze, clone) over flags incl. USE_EXPAND names, globs ('foo_*' as a "
         "positive), '-*' and '-PREFIX_*'; rendered for three packages (two versions of one key, one other key) and random pre_defaults; "
+        "user package.use token lines (plain tokens, '-*', 0-3 `NAME:` sections with values, '-*' inside sections, repeated and lower-case "
+        "headers, rarely invalid tokens / odd headers) through the real package_use_splitter + pkg_use, and whole configurations (1-6 such "
+        "lines over */*, cat/*, cp and versioned queries in two package.use files, optional global USE, IUSE defaults) through a real "
+        "domain object asked with get_package_use_unconfigured and enabled_use.pull_data for three packages; "
         "non-trivial = at least two applicable chunks speak about the same flag or a wildcard negation is present")
 
 NAMES = ["a", "b", "foo_a", "foo_b", "foobar", "foo_*", "bar_x"]
@@ -259,12 +278,21 @@ def run(ctx):
                     break
 
 
-    # ------------------------------------------------------------------ the token-line level (sampled only, no Lean model)
-    # package.use lines through the real package_use_splitter and the body of domain.pkg_use, global USE through
-    # optimize_incrementals + split_negations as domain.use / enabled_use do; reference = the tokens applied left to right
+    # ------------------------------------------------------------------ the token-line level
+    # user package.use lines: the real package_use_splitter + domain.pkg_use against the Lean model (`splitUse`, `lineChunk`);
+    # the property on the real code: the stored chunk applies like the line's tokens, each rewritten by the `NAME:` section it
+    # stands in, applied left to right (python reference below, cross-checked with the Lean `rewrite` / `holds`).  The class of
+    # the open finding (order inside one line lost) is computed from the *raw* line by the model: the specified splitter output
+    # still switches a flag on that a later token switches off.
     from pkgcore.ebuild import domain as dom
+    from pkgcore.ebuild import profiles as profiles_mod
+    from pkgcore.ebuild.eapi import get_latest_PMS_eapi
+    from pkgcore.restrictions import packages as packages_mod
     from snakeoil.sequences import split_negations
+    import os, shutil, tempfile
+    from pkgcore.test.misc import FakePkg
     raw_pkg_use = dom.domain.__dict__["pkg_use"].function.args[0]
+    real_valid = get_latest_PMS_eapi().is_valid_use_flag
 
     def ltr(tokens, s):
         s = set(s)
@@ -279,8 +307,22 @@ def run(ctx):
                 s.add(t)
         return s
 
+    def ref_rewrite(tokens):
+        """each token rewritten by the section it stands in; before the first section unchanged"""
+        out, ue = [], None
+        for t in tokens:
+            if t.endswith(":"):
+                ue = t[:-1].lower()
+            elif ue is None:
+                out.append(t)
+            elif t.startswith("-"):
+                out.append(f"-{ue}_{t[1:]}")
+            else:
+                out.append(f"{ue}_{t}")
+        return out
+
     def contradictory(tokens):
-        """does the line say both on and off about some flag"""
+        """does the token list say both on and off about some flag (used for the global USE sample below)"""
         on = {t for t in tokens if not t.startswith("-")}
         for t in tokens:
             if t == "-*" and on:
@@ -291,44 +333,185 @@ def run(ctx):
                 return True
         return False
 
-    def gen_line_tokens():
+    HEADERS = ["FOO:", "BAR:", "FOO:", "BAR:", "foo:", "Bar:"]
+
+    def gen_line_tokens(odd=0.06):
         toks = []
-        for _ in range(rng.randint(1, 4)):
-            toks.append(rng.choice(["", "-"]) + rng.choice(["a", "b", "c"]) if rng.random() < 0.85 else "-*")
-        for _ in range(rng.choice([0, 0, 1, 2])):
-            toks.append(rng.choice(["FOO:", "BAR:"]))
-            for _ in range(rng.randint(0, 3)):
-                toks.append(rng.choice(["", "-"]) + rng.choice(["x", "y"]) if rng.random() < 0.8 else "-*")
+        for _ in range(rng.choice([0, 1, 1, 2, 3, 4, 5])):
+            r = rng.random()
+            if r < 0.78:
+                toks.append(rng.choice(["", "", "-"]) + rng.choice(["a", "b", "c"]))
+            elif r < 0.78 + odd / 2:
+                toks.append(rng.choice(["a*", "-", "+a", "--a", "a:b", "_a", "foo_x", "-foo_y"]))
+            else:
+                toks.append("-*")
+        for _ in range(rng.choice([0, 0, 1, 1, 2, 3])):
+            toks.append(rng.choice(HEADERS) if rng.random() > odd / 3 else rng.choice(["-FOO:", ":", "F-O:", "-:"]))
+            for _ in range(rng.randint(0, 4)):
+                r = rng.random()
+                if r < 0.75:
+                    toks.append(rng.choice(["", "", "-"]) + rng.choice(["x", "y"]))
+                elif r < 0.75 + odd / 2:
+                    toks.append(rng.choice(["*", "-", "x*", "--x", "+y"]))
+                else:
+                    toks.append("-*")
         return toks
 
     line_corpus = [["a", "-a"], ["-a", "a", "-a"], ["a", "-*", "b"], ["FOO:", "x", "-*", "y"], ["FOO:", "x", "BAR:", "y", "FOO:", "-*"],
-                   ["a", "FOO:", "-*", "x"], ["-*", "FOO:", "x"], ["a", "b"], ["-a", "FOO:", "-x", "y"]]
+                   ["a", "FOO:", "-*", "x"], ["-*", "FOO:", "x"], ["a", "b"], ["-a", "FOO:", "-x", "y"],
+                   ["a", "-*", "b", "FOO:", "x"], ["a", "-*", "b", "-*", "c", "FOO:", "x", "-*", "y", "-*", "BAR:", "x", "-*"],
+                   ["FOO:", "x", "y", "BAR:", "x", "-*", "FOO:", "-y"], ["a", "FOO:"], ["FOO:"], ["-*"], ["FOO:", "-*"], ["a", "FOO:", "*"],
+                   ["a*"], ["-FOO:", "x", "-*"], ["b", "-*", "FOO:", "x", "BAR:", "-*", "y"], ["-b", "c", "-*", "a", "foo:", "x", "FOO:", "-x"]]
+    if ctx.replay_cases:
+        line_corpus = [c["package.use"].split()[1:] for c in ctx.replay_cases if isinstance(c.get("package.use"), str)] + line_corpus
+    LPROBES = ["a", "b", "c", "foo_x", "foo_y", "bar_x", "bar_y", "q"]
+    lines = line_corpus + [gen_line_tokens() for _ in range(ctx.n(700, 12000))]
+    info = {}          # raw token tuple -> model answer of c11.split
+    for toks, rep in zip(lines, ctx.model([{"cmd": "c11.split", "toks": t} for t in lines])):
+        info[tuple(toks)] = rep
+
+    def split_info(toks):
+        key = tuple(toks)
+        if key not in info:
+            info[key] = ctx.model([{"cmd": "c11.split", "toks": list(toks)}])[0]
+        return info[key]
+
     nlines = 0
-    for toks in line_corpus + [gen_line_tokens() for _ in range(ctx.n(400, 8000))]:
-        query = rng.choice(["cat/pkg", "=cat/pkg-1", "*/*"])
+    lreqs, lmeta = [], []
+    for toks in lines:
+        rep = info[tuple(toks)]
+        query = rng.choice(["cat/pkg", "=cat/pkg-1", "*/*", "cat/*"])
         line = query + " " + " ".join(toks)
         case = {"package.use": line}
+        if rep == "bad-op":
+            ctx.mismatch(case, "driver rejected the request")
+            continue
+        for tok, ok in rep["checked"]:
+            if bool(real_valid(tok)) != ok:
+                ctx.mismatch(case, f"is_valid_use_flag({tok!r}) is {bool(real_valid(tok))}, the model's predicate says {ok}")
+        if rep["rewrite"] != ref_rewrite(toks):
+            ctx.mismatch(case, f"reference rewriting {ref_rewrite(toks)} differs from the Lean specification {rep['rewrite']}")
         try:
             parsed = list(dom.package_use_splitter(iter([(line, 1, "package.use")])))
             data = raw_pkg_use(None, iter(parsed))
         except Exception as e:
             ctx.violation(case, f"package.use processing raised {type(e).__name__}: {e}")
             continue
-        if not data:
-            continue        # rejected line (logged by pkgcore)
-        long_form = list(parsed[0][1])
+        nlines += 1
+        sections = sum(1 for t in toks if t.endswith(":"))
+        nontriv = (sections > 0 or "-*" in toks) and len(toks) >= 2
+        ctx.case(case, nontriv, key="L|" + line)
+        ctx.count("line_sections_%d" % min(sections, 3))
+        ctx.count("line_" + ("rejected" if rep["out"] is None else "order_free" if rep["order_free"] else "order_matters"))
+        real_out = list(parsed[0][1]) if parsed else None
+        if real_out != rep["out"]:
+            ctx.mismatch(case, f"package_use_splitter yields {real_out}, the model {rep['out']}")
+        if real_out is not None and rep["out"] is not None:
+            neg, pos = data[0][1]
+            if (sorted(neg), sorted(pos)) != (sorted(rep["neg"]), sorted(rep["pos"])):
+                ctx.mismatch(case, f"pkg_use stores neg={sorted(neg)} pos={sorted(pos)}, the model neg={sorted(rep['neg'])} pos={sorted(rep['pos'])}")
+        if real_out is None or not rep["plain_names"]:
+            continue        # rejected line (logged and skipped by pkgcore) / a header that is no USE_EXPAND name
         for p in W.pkgs:
             pre = rng.sample(["a", "b", "foo_x", "bar_y", "q"], rng.choice([0, 1, 2]))
-            d = misc.ChunkedDataDict()
-            d.update_from_stream(misc.chunked_data(k, *v) for k, v in data)
-            got = set(d.render_pkg(p, pre))
-            want = ltr(long_form, pre) if data[0][0].match(p) else set(pre)
-            nlines += 1
-            ctx.evaluations += 1
-            if got != want:
-                ctx.violation(dict(case, pkg=str(p), pre_defaults=pre, tokens=long_form),
-                              f"renders {sorted(got)}, the tokens applied left to right give {sorted(want)}",
-                              finding="C11-inline-order-lost" if contradictory(long_form) else None)
+            lreqs.append({"cmd": "c11.ltr", "toks": ref_rewrite(toks), "pre": pre, "probes": LPROBES})
+            lmeta.append((case, toks, rep, data, p, pre))
+    for (case, toks, rep, data, p, pre), out in zip(lmeta, ctx.model(lreqs)):
+        d = misc.ChunkedDataDict()
+        d.update_from_stream(misc.chunked_data(k, *v) for k, v in data)
+        got = set(d.render_pkg(p, pre))
+        want = ltr(ref_rewrite(toks), pre) if data[0][0].match(p) else set(pre)
+        ctx.evaluations += 1
+        if data[0][0].match(p) and sorted(want) != sorted(out["set"]):
+            ctx.mismatch(dict(case, pre_defaults=pre), f"reference left-to-right result {sorted(want)} differs from the Lean specification {sorted(out['set'])}")
+        if got != want:
+            ctx.violation(dict(case, pkg=str(p), pre_defaults=pre, tokens=ref_rewrite(toks)),
+                          f"renders {sorted(got)}, the tokens (each rewritten by its section) applied left to right give {sorted(want)}",
+                          finding=None if rep["order_free"] else "C11-inline-order-lost")
+
+    # ------------------------------------------------------------------ the real domain: user package.use files -> flags of a package
+    # domain(profile with USE_EXPAND="FOO BAR", config_dir with package.use/*, optional global USE) asked through
+    # get_package_use_unconfigured and enabled_use.pull_data; expected = IUSE defaults, then the global USE, then every accepted
+    # line matching the package, in file order, token by token.
+    IUSE = ["a", "+b", "c", "foo_x", "+foo_y", "bar_x", "bar_y"]
+    STRIPPED = {f.lstrip("+") for f in IUSE}
+    dpkgs = [FakePkg(cpv, eapi="8", iuse=IUSE, keywords=["~amd64"]) for cpv in ("cat/pkg-1", "cat/pkg-2", "oth/x-1")]
+    tmp = tempfile.mkdtemp(prefix="verif-c11-")
+    ndom = 0
+    try:
+        base, root = os.path.join(tmp, "profiles"), os.path.join(tmp, "root")
+        os.makedirs(os.path.join(base, "profile1"))
+        os.makedirs(root)
+        with open(os.path.join(base, "profile1", "make.defaults"), "w") as f:
+            f.write('ARCH="amd64"\nACCEPT_KEYWORDS="amd64 ~amd64"\nUSE_EXPAND="FOO BAR"\n')
+        configs = [
+            (["*/* a b FOO: y", "*/* x c -* a FOO: x"], ""), (["*/* a FOO: x y", "cat/pkg b -* c FOO: -* y BAR: x"], "c"),
+            (["*/* c FOO: x BAR: x y", "=cat/pkg-1 -* FOO: y", "cat/* BAR: -* y"], "-b a"), (["*/* -* FOO: x"], "a b c"),
+        ]
+        if ctx.replay_cases:
+            configs = [(c["package.use"], c.get("USE", "")) for c in ctx.replay_cases if isinstance(c.get("package.use"), list)] + configs
+        for _ in range(ctx.n(110, 2500)):
+            cl = []
+            for _ in range(rng.randint(1, 6)):
+                cl.append(rng.choice(["*/*", "*/*", "cat/pkg", "=cat/pkg-1", ">=cat/pkg-2", "cat/*", "oth/x"]) + " " + " ".join(gen_line_tokens(odd=0.02)))
+            use = " ".join(rng.choice(["", "-"]) + rng.choice(["a", "b", "c", "foo_x", "bar_y"]) if rng.random() < 0.9 else "-*"
+                           for _ in range(rng.choice([0, 0, 1, 2, 3])))
+            configs.append((cl, use))
+        need = sorted({tuple(l.split()[1:]) for cl, _use in configs for l in cl} - set(info))
+        for key, rep in zip(need, ctx.model([{"cmd": "c11.split", "toks": list(k)} for k in need])):
+            info[key] = rep
+        for ci, (cl, use) in enumerate(configs):
+            conf = os.path.join(tmp, "conf%d" % ci)
+            os.makedirs(os.path.join(conf, "package.use"))
+            cut = rng.randint(0, len(cl))
+            for name, part in (("00-first", cl[:cut]), ("50-second", cl[cut:])):
+                with open(os.path.join(conf, "package.use", name), "w") as f:
+                    f.write("".join(l + "\n" for l in part))
+            case = {"package.use": cl, "USE": use}
+            use_toks = use.split() + os.environ.get("USE", "").split()
+            try:
+                the_dom = dom.domain(profiles_mod.OnDiskProfile(base, "profile1"), [], [], ROOT=root, config_dir=conf, **({"USE": use} if use else {}))
+            except Exception as e:
+                ctx.violation(case, f"domain construction raised {type(e).__name__}: {e}")
+                continue
+            ndom += 1
+            ctx.case(case, any(":" in l or "-*" in l for l in cl) and len(cl) >= 2, key="D|" + repr(case))
+            ctx.count("domain_lines_%d" % len(cl))
+            for p in dpkgs:
+                pre = sorted(f[1:] for f in IUSE if f[0] == "+")
+                stream, klass = list(use_toks), None if not contradictory(use_toks) else "C11-inline-order-lost"
+                for l in cl:
+                    q, *toks = l.split()
+                    rep = split_info(toks)
+                    if rep["out"] is None or not toks:
+                        continue
+                    try:
+                        hit = dom.parse_match(q).match(p)
+                    except Exception:
+                        continue
+                    if hit:
+                        stream += ref_rewrite(toks)
+                        if not rep["order_free"] or not rep["plain_names"]:
+                            klass = "C11-inline-order-lost"
+                want = ltr(stream, pre) & STRIPPED
+                pc = dict(case, pkg=str(p), tokens=stream)
+                try:
+                    got1 = set(the_dom.get_package_use_unconfigured(p)[1]) & STRIPPED
+                    got2 = set(the_dom.enabled_use.pull_data(p, pre_defaults=pre)) & STRIPPED
+                except Exception as e:
+                    ctx.violation(pc, f"asking the domain raised {type(e).__name__}: {e}")
+                    continue
+                ctx.evaluations += 2
+                ctx.count("domain_answer_" + ("order_matters" if klass else "order_free"))
+                for what, got in (("get_package_use_unconfigured", got1), ("enabled_use.pull_data", got2)):
+                    if got != want:
+                        ctx.violation(pc, f"{what} enables {sorted(got)}; IUSE defaults {pre}, then USE, then the matching package.use lines "
+                                          f"applied token by token give {sorted(want)}", finding=klass)
+                        break
+    finally:
+        shutil.rmtree(tmp, ignore_errors=True)
+    ctx.extra["domains"] = ndom
+
     for toks in [["foo_a", "-foo_*"], ["a", "-a"], ["-a", "a"], ["a", "-*", "b"]] + \
                 [[rng.choice(["", "-"]) + rng.choice(["a", "b", "foo_a", "foo_*", "*"]) for _ in range(rng.randint(1, 5))] for _ in range(ctx.n(300, 6000))]:
         toks = [t for t in toks if t != "*"]
@@ -353,9 +536,16 @@ LEVEL_TEXT = ("Kernel-checked Lean 4 theorems about models of incremental_chunke
               "rendering a chunk sequence is 'the last applicable chunk speaking about a flag decides' (-flag, flag, -*, -PREFIX_*), for all "
               "sequences and initial sets; the collapsed sequence of _build_cp_atom_payload renders the same set for every package and initial "
               "set; every dict built by update_from_stream/add_global/merge/optimize (freeze/clone being the identity) renders, for every "
-              "package, the flat history of its entries applied in order. Tied to the code by a differential run on random and bounded-"
-              "exhaustive chunk sequences and random operation histories through the real API, which also evaluates the flat specification "
-              "on the real results.")
-LEVEL_NOTE = ("Trusted: Lean kernel; restrictions reduced to identity/simple/cp (match results taken from the real match()); sets as lists. "
-              "Not covered: the token-line level (package_use_splitter, split_negations(stable_unique(...)) in domain.pkg_use) where the order "
-              "of contradictory tokens within one line is lost.")
+              "package, the flat history of its entries applied in order. User package.use lines: the model of package_use_splitter equals a "
+              "look-ahead specification (the line rewritten section by section minus the tokens a later -* of the same part overrides), its "
+              "output is a subsequence of the rewritten line, is accepted iff every long-form token is a valid flag, and applied left to right "
+              "means the same as the whole rewritten line; the single chunk domain.pkg_use stores for a line applies like the tokens in order "
+              "whenever no token switches a flag on that a later one switches off (proved counterexample otherwise). Tied to the code by a "
+              "differential run on random and bounded-exhaustive chunk sequences, random operation histories through the real API, random "
+              "package.use lines through the real splitter, and whole configurations through a real domain object, which also evaluates the "
+              "flat specification on the real results.")
+LEVEL_NOTE = ("Trusted: Lean kernel; restrictions reduced to identity/simple/cp (match results taken from the real match()); sets as lists; "
+              "lines modelled behind str.split(); the domain glue above the chunks is driven, not modelled. Partial: split_negations("
+              "stable_unique(...)) in domain.pkg_use loses the order of contradictory tokens within one line (open finding "
+              "C11-inline-order-lost: `a -a`, `FOO: x BAR: y FOO: -*`; the theorems carry the guard `orderFree`); section headers starting "
+              "with '-' are outside the guard of splitter_preserves_meaning_partial.")
